@@ -36,7 +36,7 @@ def run(ctx, report):
     report.section("written documents", markup_writer_fold.run, ctx, report, {"italics": ("R-DOC-STYLE", "1")})
     from . import dfxp_reader_fold
     report.section("generated DFXP documents", dfxp_reader_fold.run, ctx, report, {
-        "italics": ("R-DOC-STYLE", "1"), "roundtrip": ("R-ROUNDTRIP", "1")})
+        "italics": ("R-DOC-STYLE", "1"), "roundtrip": ("R-ROUNDTRIP", "1"), "to_sami": ("R-CHAIN", "1")})
     from . import scc_e2e_fold
     report.section("SCC reader end to end (pop-on)", scc_e2e_fold.run, ctx, report, {
         "italics": ("R-E2E", "4", "italic nodes are balanced and cover exactly the characters sent while italics were on")})
